@@ -24,7 +24,7 @@ THEOREMS = [P + t for t in (
     "atomic_addChildInterface", "atomic_addPortMirror", "atomic_addComponentMT", "atomic_removeChildInterface", "atomic_peer",
     "atomic_unpeer", "atomic_xop", "atomic_updateCaplab", "atomic_yop", "atomic_any", "history_atomic", "history_erasure",
     "okOps_all_ok", "history_all_failed", "removeNode_multipeer_counterexample", "order_discipline", "order_pinned_minimal",
-    "order_single_write_sound")] + [
+    "order_single_write_sound", "store_primitives_as_modelled", "setProps_rejected_whole")] + [
     "FimVerif.Topo." + t for t in (
     "removeCpAndLinks_spec", "removeNs_spec", "removeCompGraph_spec", "removeNodeGraph_spec", "detachAll_spec", "removeNodeGraph_fac",
     "removeCompGraph_comp0", "removeCompGraph_comp1", "flag_componentRollback")] + [
@@ -128,7 +128,12 @@ def run_history(flavour, ops_or_gen, on_step=None, nmax=None):
                 sess.fresh(op["kind"], op["name"])
                 hist.append(op)
                 continue
+            if op["op"] == "_backup":           # a copy of the topology (node ids preserved) stays alive in the process
+                if sess.backup(op.get("how", "load")):
+                    hist.append(op)
+                continue
             before = T.snapshot(sess.topo)
+            ob = sess.other_snapshots()
             hkeys = [op.get(f) for f in T.cache_handles(op)]
             caches = lambda: [T._cache(sess.handles[hk].obj) if hk in sess.handles else None for hk in hkeys] or None
             cb = caches()
@@ -138,10 +143,11 @@ def run_history(flavour, ops_or_gen, on_step=None, nmax=None):
                 continue
             after = T.snapshot(sess.topo)
             ca = caches()
+            oa = sess.other_snapshots()
             T.after_success(sess, op, outcome)
             hist.append(op)
             st = dict(op=op, line=line, outcome=outcome, before=before, after=after, cache_before=cb, cache_after=ca, history=list(hist),
-                      flavour=flavour)
+                      flavour=flavour, others_before=ob, others_after=oa)
             steps.append(st)
             if on_step:
                 on_step(sess, st)
@@ -168,6 +174,14 @@ def check_step(st, res, case):
     """The property: outcome err => snapshot and handle cache unchanged."""
     if st["outcome"][0] != "err":
         return False
+    if st.get("others_before") != st.get("others_after"):
+        # the copies of the topology that are alive in the process belong to "the model as it was" as well
+        api = st["op"]["op"]
+        res.violation("C09:%s:%s:other-topology-changed" % (api, st["outcome"][1]),
+                      "%s raised %s but a copy of the topology kept in the same process changed" % (api, st["outcome"][1]), case,
+                      expected="every graph of the process identical to what it was before the call",
+                      observed={"copies": [list(T.snap_diff(b, a)) for b, a in zip(st["others_before"], st["others_after"]) if a != b]})
+        return True
     if st["before"] == st["after"] and st["cache_before"] == st["cache_after"]:
         return False
     a, r, ea, er = T.snap_diff(st["before"], st["after"])
@@ -187,7 +201,19 @@ def random_history(ctx, tag, flavour, n, fault, ext=False):
     rng = ctx.sub_rng(tag)
     names = T.Names(rng)
     # caller-supplied names / ids of every creating and renaming call drawn from the names / ids the model holds (any class)
-    return run_history(flavour, lambda sess: T.collide(rng, sess, X.gen_op_x(rng, sess, names, fault, ext=ext), p_name=0.3, p_id=0.05), nmax=n)
+    def gen(sess):
+        b = maybe_backup(rng, sess)
+        if b is not None:
+            return b
+        return X.loosen(rng, sess, T.collide(rng, sess, X.gen_op_x(rng, sess, names, fault, ext=ext), p_name=0.3, p_id=0.05), p=0.08)
+    return run_history(flavour, gen, nmax=n)
+
+
+def maybe_backup(rng, sess):
+    """now and then (at most twice per history, once something exists) a copy of the topology is kept in the process"""
+    if len(sess.order) >= 4 and len(getattr(sess, "others", [])) < 2 and rng.random() < 0.05:
+        return {"op": "_backup", "how": rng.choice(["load", "clone"])}
+    return None
 
 
 def base_ops(flavour):
@@ -277,6 +303,8 @@ def systematic_cases(flavour):
     out += extension_cases(flavour, base)
     out += c09_cases(flavour, base)
     out += collision_cases(flavour, base)
+    out += loose_cases(flavour, base)
+    out += backup_cases(flavour, base)
     # bad keyword at every position among good ones, for every creating call
     g = {"node": T.GOOD_KW["node"][:2], "comp": T.GOOD_KW["comp"][:2], "svc": T.GOOD_KW["svc"][:2], "iface": T.GOOD_KW["iface"][:2],
          "link": T.GOOD_KW["link"][:2]}
@@ -354,6 +382,131 @@ def systematic_cases(flavour):
         {"op": "add_switch", "name": "sw1", "nid": "swid", "site": "RENC", "nports": 2},
         {"op": "node_add_service", "parent": "h0", "name": "taken", "nid": "sw2id-int2", "nstype": "VLAN", "kw": []},
         {"op": "add_switch", "name": "sw2", "nid": "sw2id", "site": "RENC", "nports": 3}]))
+    return out
+
+
+def loose_cases(flavour, base):
+    """bulk setters (and creating calls) that mix good properties with a value the sliver setter lets through without a type
+    check (details / site / controller_url / ... given an int, float, bool, list, dict, tuple - found by probing the sliver
+    classes, X.loose_props): the layers below meet a non-string value.  Whether such a call is accepted or refused, it must be
+    so as a whole.  Per element kind and loose property one history: the loose keyword at every position among two good
+    ones (two alternating sets, so every call has something to change), then with a sliver-rejected keyword as well."""
+    sub = flavour.startswith("sub")
+    nid = (lambda s: s) if sub else (lambda s: None)
+    if not sub:
+        elems = base + [{"op": "add_service", "name": "kwsvc", "nstype": "L2Bridge", "ifs": [], "kw": []},          # h10
+                        {"op": "add_link", "name": "kwlink", "ltype": "L2Path", "ifs": ["h3", "h6"], "kw": []}]     # h11
+        targets = [("node", "h0"), ("comp", "h2"), ("iface", "h3"), ("svc", "h10"), ("link", "h11")]
+    else:
+        elems = base
+        targets = [("node", "h0"), ("comp", "h2"), ("iface", "h3")]
+    alt = {"node": [[["capacities", ["cap", {"core": 16}]], ["tags", ["tags", ["blue"]]]], [["capacities", ["cap", {"core": 4}]], ["boot_script", ["str", "echo x"]]]],
+           "comp": [[["labels", ["lab", {"bdf": "0000:41:00.1"}]], ["tags", ["tags", ["blue"]]]], [["labels", ["lab", {"bdf": "0000:41:00.2"}]], ["capacities", ["cap", {"unit": 2}]]]],
+           "svc": [[["labels", ["lab", {"vlan": "300"}]], ["tags", ["tags", ["blue"]]]], [["labels", ["lab", {"vlan": "301"}]], ["capacities", ["cap", {"bw": 3}]]]],
+           "iface": [[["capacities", ["cap", {"bw": 25}]], ["tags", ["tags", ["blue"]]]], [["capacities", ["cap", {"bw": 40}]], ["labels", ["lab", {"vlan": "201"}]]]],
+           "link": [[["capacities", ["cap", {"bw": 7}]], ["tags", ["tags", ["blue"]]]], [["capacities", ["cap", {"bw": 9}]], ["labels", ["lab", {"vlan": "302"}]]]]}
+    out = []
+    for kind, hk in targets:
+        for pname, vals in X.loose_props(kind):
+            ops, j = list(elems), 0
+            for vi, v in enumerate(vals):
+                for pos in range(3):
+                    if vi >= 3 and pos != vi % 3:
+                        continue                # first three values at every position, the others at one each
+                    kw = list(alt[kind][j % 2])
+                    j += 1
+                    kw.insert(pos, [pname, v])
+                    ops.append({"op": "set_props", "h": hk, "kw": kw, "single": False})
+            for pos in range(4):
+                kw = list(alt[kind][j % 2])
+                j += 1
+                kw.insert(min(pos, 2), [pname, vals[pos % len(vals)]])
+                kw.insert(pos, T.BAD_KW[kind][1])
+                ops.append({"op": "set_props", "h": hk, "kw": kw, "single": False})
+            ops.append({"op": "set_props", "h": hk, "kw": [[pname, vals[0]]]})             # set_property
+            out.append(("loose/set_props/%s/%s" % (kind, pname), ops))
+    # the same values through the creating calls
+    lv = X.LOOSE_VALUES
+    cr = list(base)
+    for i, v in enumerate(lv[:4]):
+        kw = [["capacities", ["cap", {"core": 2}]], ["details", v]]
+        cr.append({"op": "add_node", "name": "ln%d" % i, "nid": nid("ln%did" % i), "site": "RENC", "ntype": "Server", "kw": kw[::-1] if i % 2 else kw})
+        cr.append({"op": "add_component", "parent": "h1", "name": "lg%d" % i, "nid": nid("lg%did" % i), "ctype": "GPU", "model": "RTX6000",
+                   "kw": [["details", lv[(i + 4) % len(lv)]], T.GOOD_KW["comp"][0]]})
+        cr.append({"op": "add_service", "name": "ls%d" % i, "nid": nid("ls%did" % i), "nstype": "L2Bridge", "ifs": [],
+                   "kw": [T.GOOD_KW["svc"][0], ["controller_url", v], ["details", lv[(i + 5) % len(lv)]]]})
+        cr.append({"op": "add_node", "name": "lb%d" % i, "nid": nid("lb%did" % i), "site": "RENC", "ntype": "Server",
+                   "kw": [["details", v], T.BAD_KW["node"][1]]})
+    out.append(("loose/creating-calls", cr))
+    return out
+
+
+def backup_cases(flavour, base):
+    """a second topology alive in the process that holds the same node ids (a copy kept before a modification: serialize + load
+    under a new graph id, or clone_graph), then every call that takes a handle with a handle whose element was removed from the
+    working topology - the id exists nowhere in this model but does exist in the process.  Each call must be refused with nothing
+    written; the copy must not change either."""
+    sub = flavour.startswith("sub")
+    nid = (lambda s: s) if sub else (lambda s: None)
+    out = []
+    for how in ("load", "clone"):
+        if not sub:
+            pre = base + [
+                {"op": "add_node", "name": "n3", "site": "RENC", "ntype": "VM", "kw": []},                                 # h10
+                {"op": "add_component", "parent": "h10", "name": "nic3", "ctype": "SmartNIC", "model": "ConnectX-6", "kw": []},  # h11; h12 h13
+                {"op": "add_service", "name": "sv", "nstype": "L2Bridge", "ifs": ["h4"], "kw": []},                      # h14
+                {"op": "add_service", "name": "sw", "nstype": "L3VPN", "ifs": [], "kw": []},                             # h15
+                {"op": "add_service", "name": "sx", "nstype": "L3VPN", "ifs": [], "kw": []},                             # h16
+                {"op": "_backup", "how": how},
+                {"op": "remove_node", "name": "n3"},
+                {"op": "remove_service", "name": "sx"}]
+            stale_if, stale_node, stale_comp, stale_svc, live_svc, peer_svc = "h12", "h10", "h11", "h16", "h14", "h15"
+            goods = ["h3", "h6", "h7"]
+            lt, st = "L2Path", "L2STS"
+        else:
+            pre = base + [
+                {"op": "add_service", "name": "sv", "nid": "svid", "nstype": "L2Bridge", "ifs": [], "kw": []},             # h10
+                {"op": "add_service", "name": "sx", "nid": "sxid", "nstype": "L2Bridge", "ifs": [], "kw": []},             # h11
+                {"op": "_backup", "how": how},
+                {"op": "remove_component", "parent": "h1", "name": "nic2"},
+                {"op": "remove_service", "name": "sx"}]
+            stale_if, stale_node, stale_comp, stale_svc, live_svc, peer_svc = "h6", None, "h5", "h11", "h10", "h10"
+            goods = ["h3", "h4", "h9"]
+            lt, st = "Patch", "L2Bridge"
+        calls = []
+        for n in (1, 2, 3):
+            for pos in range(n):
+                ifs = goods[:n - 1]
+                ifs = ifs[:pos] + [stale_if] + ifs[pos:]
+                calls.append({"op": "add_link", "name": "bl%d%d" % (n, pos), "nid": nid("bl%d%did" % (n, pos)), "ltype": lt, "ifs": ifs, "kw": []})
+                if not sub:
+                    calls.append({"op": "add_service", "name": "bs%d%d" % (n, pos), "nstype": st, "ifs": ifs, "kw": []})
+                    calls.append({"op": "node_add_service", "parent": "h1", "name": "bo%d%d" % (n, pos), "nstype": "OVS", "ifs": ifs, "kw": []})
+        calls += [{"op": "ns_add_interface", "svc": stale_svc, "name": "bi", "nid": nid("biid"), "itype": "TrunkPort", "kw": []},
+                  {"op": "add_component", "parent": stale_node or "h1", "name": "bc", "nid": nid("bcid"), "ctype": "GPU", "model": "RTX6000", "kw": []},
+                  {"op": "set_props", "h": stale_comp, "kw": [["details", ["str", "x"]], ["labels", ["lab", {"bdf": "0000:41:00.3"}]]], "single": False},
+                  {"op": "set_props", "h": stale_if, "kw": [["details", ["str", "x"]]]},
+                  {"op": "unset_prop", "h": stale_if, "pname": "details"},
+                  {"op": "rename", "h": stale_comp, "name": "renamed"},
+                  {"op": "update_labels", "h": stale_if, "fields": {"vlan": "9"}},
+                  {"op": "update_capacities", "h": stale_comp, "fields": {"unit": 2}},
+                  {"op": "remove_component", "parent": stale_node or "h1", "name": "nic3" if not sub else "nic2"}]
+        if not sub:
+            calls += [{"op": "connect", "svc": live_svc, "if": stale_if},
+                      {"op": "connect", "svc": stale_svc, "if": "h3"},
+                      {"op": "disconnect", "svc": live_svc, "if": stale_if},
+                      {"op": "peer", "svc": peer_svc, "other": stale_svc, "kw": []},
+                      {"op": "peer", "svc": stale_svc, "other": peer_svc, "kw": []},
+                      {"op": "add_child_interface", "port": stale_if, "name": "bsub", "kw": [["labels", ["lab", {"vlan": "101"}]]]},
+                      {"op": "add_port_mirror", "name": "bpm", "to": stale_if, "from_name": "nic1-p1", "from_vlan": "100", "direction": "RX_Only", "kw": []},
+                      {"op": "add_storage", "parent": stale_node, "name": "bst", "kw": []}]
+        out.append(("backup/%s/stale-handles" % how, pre + calls))
+        # and the ordinary rejected calls with a copy alive: ids / names that are taken in this model AND in the copy
+        out.append(("backup/%s/taken-ids" % how, pre + [
+            {"op": "add_node", "name": "n1", "nid": nid("zz1"), "site": "RENC", "ntype": "Server", "kw": []},
+            {"op": "add_node", "name": "bn", "nid": "n1id" if sub else None, "site": "RENC", "ntype": "Server", "kw": [T.BAD_KW["node"][1]]},
+            {"op": "add_component", "parent": "h0", "name": "nic1", "nid": nid("zz2"), "ctype": "GPU", "model": "RTX6000", "kw": []},
+            {"op": "add_link", "name": "bl", "nid": nid("zz3"), "ltype": lt, "ifs": [goods[0], T.BOGUS, goods[1]], "kw": []}]))
     return out
 
 
@@ -844,7 +997,10 @@ def oracle(ctx, res, budget=None):
         sess_ops = []
 
         def gen(sess):
-            op = X.gen_op_x(rng, sess, names, 0.45, ext=(i % 4 in (1, 2)), oracle_only=True)
+            b = maybe_backup(rng, sess)
+            if b is not None:
+                return b
+            op = X.loosen(rng, sess, X.gen_op_x(rng, sess, names, 0.45, ext=(i % 4 in (1, 2)), oracle_only=True), p=0.08)
             # the snapshot is taken before EVERY call: names / ids that collide with what the model holds go into creating calls,
             # rename, set_property / set_properties(name=) and the attribute assignment `element.name = ...`
             op = T.collide(rng, sess, op, p_name=0.35, p_id=0.06, set_name=True)
@@ -860,6 +1016,10 @@ def oracle(ctx, res, budget=None):
             res.count("backend:" + ("disjoint" if fl.endswith("+d") else "shared"))
             if "collide" in st["op"]:
                 res.count("collide:%s:%s:%s" % (st["op"]["collide"], st["op"]["op"], "ok" if st["outcome"][0] == "ok" else st["outcome"][1]))
+            if "loose" in st["op"]:
+                res.count("loose-value:%s:%s:%s" % (st["op"]["op"], st["op"]["loose"], "ok" if st["outcome"][0] == "ok" else st["outcome"][1]))
+            if st.get("others_before"):
+                res.count("copies-alive:%d:%s" % (len(st["others_before"]), "ok" if st["outcome"][0] == "ok" else "err"))
             check_step(st, res, {"flavour": fl, "ops": steps[j]["history"], "label": "random"})
     res.sample({"oracle": "snapshot(before) == snapshot(after) and cache unchanged for every raising call", "histograms": dict(list(res.hist.items())[:8])})
 
